@@ -38,6 +38,7 @@ type genOpts struct {
 	canonical bool // values fit their wire fields (the C01 domain)
 	nilBody   int  // 0: body present and matching; 1: nil body (registered key); 2: nil body, unregistered key; 3: mismatching body type
 	bigLists  bool // allow a few long lists
+	midLists  bool // every list has 12..41 entries (set for one value in six by genMessage itself)
 	depth     int
 }
 
@@ -202,26 +203,61 @@ func (r *rng) listLen(cnt string, big bool) int {
 		return 1
 	case 2:
 		if big {
-			switch r.intn(3) {
+			switch r.intn(5) {
 			case 0:
 				return 255
 			case 1:
 				return 256
-			default:
+			case 2:
 				if prefixMax(cnt) >= 65535 {
 					return 300 + r.intn(200)
 				}
 				return 255
+			case 3:
+				// beyond one 4 KiB block of 8-byte elements
+				if prefixMax(cnt) >= 65535 {
+					return 513 + r.intn(40)
+				}
+				return 200 + r.intn(50)
+			default:
+				// beyond one 4 KiB block of 2-byte elements
+				if prefixMax(cnt) >= 65535 {
+					return 2049 + r.intn(60)
+				}
+				return 254
 			}
 		}
 		return 2
+	case 3:
+		// mid-size: a body of a few hundred bytes (several buffer growth steps, more than any fixed-size message)
+		n := 4 + r.intn(28)
+		if n > prefixMax(cnt) {
+			n = prefixMax(cnt)
+		}
+		return n
 	default:
 		return r.intn(4)
 	}
 }
 
+func (r *rng) listLenOpt(cnt string, o genOpts, big bool) int {
+	if o.midLists {
+		n := 12 + r.intn(30)
+		if n > prefixMax(cnt) {
+			n = prefixMax(cnt)
+		}
+		return n
+	}
+	return r.listLen(cnt, big)
+}
+
 // genMessage builds a value of type t
 func (r *rng) genMessage(t *genType, o genOpts) any {
+	if o.depth == 0 && !o.bigLists && forceListLen == 0 && r.chance(1, 6) {
+		// bodies of a few hundred bytes to a few KiB: several buffer growth steps, larger than any fixed-size message
+		o.midLists = true
+	}
+	o.depth++
 	m := t.New()
 	e := reflect.ValueOf(m).Elem()
 	for i := range t.Fields {
@@ -242,7 +278,7 @@ func (r *rng) genMessage(t *genType, o genOpts) any {
 				fv.SetString(r.varText(f.Len, o.bigLists))
 			}
 		case "ints":
-			n := r.listLen(f.Cnt, o.bigLists)
+			n := r.listLenOpt(f.Cnt, o, o.bigLists)
 			if n > prefixMax(f.Cnt) {
 				n = prefixMax(f.Cnt)
 			}
@@ -255,7 +291,7 @@ func (r *rng) genMessage(t *genType, o genOpts) any {
 			}
 			fv.Set(sl)
 		case "strs":
-			n := r.listLen(f.Cnt, o.bigLists)
+			n := r.listLenOpt(f.Cnt, o, o.bigLists)
 			if n > prefixMax(f.Cnt) {
 				n = prefixMax(f.Cnt)
 			}
@@ -278,10 +314,12 @@ func (r *rng) genMessage(t *genType, o genOpts) any {
 		case "val":
 			fv.Set(reflect.ValueOf(r.genMessage(typeById[f.Ref], o)).Elem())
 		case "ptrs":
-			n := r.listLen(f.Cnt, false)
+			n := r.listLenOpt(f.Cnt, o, false)
+			oe := o
+			oe.midLists = false
 			sl := reflect.MakeSlice(fv.Type(), n, n)
 			for j := 0; j < n; j++ {
-				sl.Index(j).Set(reflect.ValueOf(r.genMessage(typeById[f.Ref], o)))
+				sl.Index(j).Set(reflect.ValueOf(r.genMessage(typeById[f.Ref], oe)))
 			}
 			if n == 0 && r.chance(1, 2) {
 				sl = reflect.Zero(fv.Type())
@@ -389,11 +427,38 @@ func (r *rng) unregisteredStr(tb *genTable) string {
 	for {
 		var v string
 		base := tb.Entries[r.intn(len(tb.Entries))].KeyStr
-		switch r.intn(9) {
+		switch r.intn(12) {
 		case 0:
 			v = ""
 		case 1:
 			v = base[:len(base)-1]
+		case 9, 10, 11:
+			// an unregistered spelling that digit arithmetic without a digit check maps onto a registered number:
+			// borrow one from a digit and give ten to its right neighbour ("010" -> "00:"), a hundred to the next
+			// but one ("100" -> "00" + byte('0'+100)), or the reverse ("00:" style carries into the left digit)
+			c := []byte(base)
+			if len(c) < 2 {
+				continue
+			}
+			i := r.intn(len(c) - 1)
+			switch r.intn(3) {
+			case 0:
+				if c[i] > '0' && c[i] <= '9' {
+					c[i]--
+					c[i+1] += 10
+				}
+			case 1:
+				if c[i] >= '0' && c[i] < '9' {
+					c[i]++
+					c[i+1] -= 10
+				}
+			default:
+				if i+2 < len(c) && c[i] > '0' && c[i] <= '9' {
+					c[i]--
+					c[i+2] += 100
+				}
+			}
+			v = string(c)
 		case 5:
 			// the same number written differently: an id table keyed by text must not parse it
 			v = strings.TrimLeft(base, "0")
